@@ -30,7 +30,8 @@ def cfg(max_instr, max_mut, hang=False, export=False, quote_family=False):
     return c + 'CHECK_DEADLOCK FALSE\n'
 
 
-SPECIAL = {'\\u00e9': 'é', '\\f': '\x0c', '\\v': '\x0b', '\\u00a0': '\u00a0', '\\u2028': '\u2028', 'LONG': 'a' * 300}
+SPECIAL = {'\\u00e9': 'é', '\\f': '\x0c', '\\v': '\x0b', '\\u00a0': '\u00a0', '\\u2028': '\u2028', 'LONG': 'a' * 300,
+           'DIGIT2': '\u00b2', 'DIGITS-AR': '\u0661\u0662', 'NINES': '9' * 5000}
 
 
 def render(toks):
@@ -114,7 +115,7 @@ def known(text, o):
 EXTREME = ['0', '-1', '1//0', '1/0', '1.5', "'a'", '()', '2**70', '1e3', 'None', '', '(', ')', '[', '*', '\\', "'\\6'",
            "'(?P<a'", "'[a-'", "'a{2,1}'", '+', '@[UNDEF]@', '@[EXACTLY_ACT]@', '"', "'", '<<EOF', ':>', '-rel-tmp', '-rel',
            '!', '&&', '||', '=', ':', '{', '}', '-full', 'é', '\t', "'a{4294967296}'", '10**5000', '[setup]', '`', '\x0c', '\x0b', '\u00a0', '\u2028', 'a' * 300,
-           "''", "'.'"]
+           "''", "'.'", '\u00b2', '9' * 5000, '007', '\u0661']
 
 
 def mutate(rnd, text):
